@@ -57,6 +57,16 @@ func probe(args []string) error {
 			{"op": "tick"},
 			{"op": "tick"},
 		}},
+		{"observation (outside the C19 statement): $tdpos reads its records at the snapshot height chosen by the caller", []fx.Ev{
+			{"op": "init", "by": "a"},
+			{"op": "tnom", "by": "a", "amt": 500},
+			{"op": "tnom", "by": "b", "amt": 1000},
+			{"op": "trevnom", "by": "a"},
+			{"op": "trevnom", "by": "a", "hd": 1},
+			{"op": "transfer", "by": "a", "to": "c", "amt": 2500},
+			{"op": "transfer", "by": "a", "to": "c", "amt": 1000},
+			{"op": "transfer", "by": "a", "to": "c", "amt": 500},
+		}},
 		{"proposal life cycle", []fx.Ev{
 			{"op": "init", "by": "b"},
 			{"op": "lock", "by": "a", "acct": "a", "amt": 500, "lt": "ordinary"},
